@@ -45,7 +45,7 @@ CFG = PropCfg(
 )
 
 MANIFEST = {
-    "text": "Proof (Lean 4, unbounded): for each of 11 codecs (one-byte-length strings, certificate id block, id "
+    "text": "Proof (Lean 4, unbounded): for each of 12 codecs (one-byte-length strings, certificate id block, id "
             "chunk, certificate, intent, grant message, tube frame and initiate frame, exec request, user-auth "
             "request, port-forward request) the model writer/reader pair, transcribed field by field from the Go "
             "code, satisfies C18_X_roundtrip (decode(encode v ++ rest) = (v, rest) for every representable v), "
